@@ -413,10 +413,12 @@ def r4_4(run):
     for name in ("heat_transfer", "solve_bidirectional"):
         g_ = ix.func(P + "." + name)
         run.analysed(g_)
-        ident = [c for c in calls(g_.node, "identify_active_nodes_branches") if len(c.args) == 2 and U(c.args[1]) == "False"]
-        red = [c for c in calls(g_.node, "reduce_pit") if any(k.arg == "mode" and const_str(k.value) == "heat_transfer" for k in c.keywords)]
+        # whole-function terms: keyword / positional spelling and helper functions do not matter
+        rg = ANF(ix, g_, param_alias={g_.params()[0]: "net"}).run()
+        ident = [c for c in rg.calls() if c.fn == ("f", PS + ".identify_active_nodes_branches") and tuple(c.args) == (("n", "net"), C(False))]
+        red = [c for c in rg.calls() if c.fn == ("f", PS + ".reduce_pit") and tuple(c.args) == (("n", "net"), C("heat_transfer"))]
         run.ob("%s|thermal-identification-before-reduction" % name,
-               len(ident) >= 1 and len(red) >= 1 and min(c.lineno for c in ident) < min(c.lineno for c in red),
+               len(ident) >= 1 and len(red) >= 1 and min(c.seq for c in ident) < min(c.seq for c in red),
                "%s identifies the thermally active part before reducing the pit for heat transfer" % name, run.where(g_, g_.node))
     run.floor(6)
 
